@@ -38,6 +38,7 @@ class StubSim(DynamicOrderSimulation):
         self.done_at = list(script["doneAt"])
         self.finish_at = script["finishAt"]
         self.noms = [list(x) for x in script["noms"]]
+        self.undone_at = list(script.get("undoneAt", []))
         # ids are deliberately NOT in lexicographic order (nor of equal length): code that sorts ids, iterates a
         # set of them or compares them as strings then differs visibly from code that keeps the listing order
         self.ids = [f"{'zwxbyvcuat'[i % 10]}{i}{'_' * (i % 3)}" for i in range(self.n)]
@@ -99,8 +100,12 @@ class StubSim(DynamicOrderSimulation):
         self.pend[a] = 0
         return r
 
+    def _done(self, a):
+        u = self.undone_at[a] if a < len(self.undone_at) else 1000000
+        return self.done_at[a] <= self.t and not (u <= self.t)
+
     def get_done(self, agent_id, **kwargs):
-        return self.done_at[self.idx[agent_id]] <= self.t
+        return self._done(self.idx[agent_id])
 
     def get_all_done(self, **kwargs):
         return self.finish_at <= self.t
@@ -112,10 +117,13 @@ class StubSim(DynamicOrderSimulation):
     def ghost(self):
         nom = self.noms[self.t] if self.t < len(self.noms) else list(range(self.n))
         return [self.finish_at <= self.t,
-                [self.done_at[a] <= self.t for a in range(self.n)],
+                [self._done(a) for a in range(self.n)],
                 list(self.pend), list(nom)]
 
 
 def script_to_wire(sc):
-    return [sc["n"], [bool(b) for b in sc["learning"]], list(sc["doneAt"]), sc["finishAt"],
-            [list(x) for x in sc["noms"]]]
+    w = [sc["n"], [bool(b) for b in sc["learning"]], list(sc["doneAt"]), sc["finishAt"],
+         [list(x) for x in sc["noms"]]]
+    if sc.get("undoneAt"):
+        w.append(list(sc["undoneAt"]))
+    return w
